@@ -23,6 +23,9 @@ func DrawCase(t *rapid.T, o gen.GenOpts) *drive.Case {
 		c.Lang = "xpath"
 	}
 	c.DeclSeed = rapid.IntRange(0, 1000).Draw(t, "declSeed")
+	if rapid.Bool().Draw(t, "perturbOn") {
+		c.Perturb = uint64(rapid.IntRange(1, 1000).Draw(t, "perturb"))
+	}
 	for _, v := range gen.IntVars {
 		c.Vars[v] = int64(rapid.IntRange(0, 3).Draw(t, v))
 	}
